@@ -174,13 +174,19 @@ class QueueStub:
     sorted deque distinguishes.  The real DEPQ is executed in C19 and in the '+real-queue' jobs."""
 
     def __init__(self, iterable=None, maxlen=None):
-        if iterable is not None or maxlen is not None:
-            raise HarnessError('QueueStub models the unbounded queue only')
-        self.maxlen = None
+        if iterable is not None:
+            raise HarnessError('QueueStub: iterable argument is not modelled')
+        self.maxlen = maxlen            # iOpt's Solver builds an unbounded queue (maxlen None); a bound is modelled like DEPQ's: the lowest entry is dropped
         self.data = []
 
     def insert(self, item, priority):
         self.data.append((item, priority))
+        if self.maxlen is not None and len(self.data) > self.maxlen:
+            wi = 0
+            for i in range(1, len(self.data)):
+                if self.data[i][1] <= self.data[wi][1]:
+                    wi = i
+            self.data.pop(wi)
 
     def popfirst(self):
         if not self.data:
@@ -276,7 +282,7 @@ def inv_state(ex, N, k, r=None, eps=None, iters_limit=None, real_queue=False, re
     return solver, prob, items, info
 
 
-def step_job(N, k, want, real_queue=False, timeout_ms=30000, recalc=None, md_inf=None, best=None):
+def step_job(N, k, want, real_queue=False, timeout_ms=30000, recalc=None, md_inf=None, best=None, exact=False):
     setup()
     mods = setup()['mods']
 
@@ -303,11 +309,14 @@ def step_job(N, k, want, real_queue=False, timeout_ms=30000, recalc=None, md_inf
             pass
         prove_all(ex, cl, only=want)
         return {'t': ti, 'k': k}
-    ex = Explorer(mode='ABSTRACT', name='STEP N=%d k=%d' % (N, k), timeout_ms=timeout_ms, wall_s=job_wall())
+    if exact:
+        ex = exact_explorer('STEP-EXACT N=%d k=%d' % (N, k), timeout_ms=timeout_ms)
+    else:
+        ex = Explorer(mode='ABSTRACT', name='STEP N=%d k=%d' % (N, k), timeout_ms=timeout_ms, wall_s=job_wall())
     ex.explore(h, sample_every=9)
     cfg = {'N': N, 'k': k, 'level': 'step', 'real_queue': real_queue, 'recalc': recalc, 'md_inf': md_inf, 'best': best}
-    return summary(ex, 'one step from Inv: N=%d, %d evaluated trials, recalc=%s, accuracy_inf=%s, best=%s%s'
-                   % (N, k, recalc, md_inf, best, ', real DEPQ' if real_queue else ''), {'N': N, 'k': k}, cfg)
+    return summary(ex, 'one step from Inv%s: N=%d, %d evaluated trials, recalc=%s, accuracy_inf=%s, best=%s%s'
+                   % (' (exact arithmetic)' if exact else '', N, k, recalc, md_inf, best, ', real DEPQ' if real_queue else ''), {'N': N, 'k': k}, cfg)
 
 
 # ----------------------------------------------------------------------------------------------
@@ -366,7 +375,7 @@ def scenario_job(cfg, want, extra=None, label=None, timeout_ms=30000):
     def h(ex):
         del PRINTS[:]
         if cfg.get('refine') or any(st_[0] == 'refine' for st_ in cfg['script']):
-            use_minimize_stub(ex, cfg.get('nm_points', 2))
+            use_minimize_stub(ex, cfg.get('nm_points', 2), cfg.get('nm_success') == 'sym')
         fail = cfg.get('fail')
         obj = PrefixObjective(ex, cfg.get('seed', 0), N, cfg.get('kpre', 0), zrange=cfg.get('zrange', 1000),
                               fail_at=fail[0] if fail else None, exc=an.EXC_TYPES[fail[1]]() if fail else None)
@@ -504,20 +513,23 @@ def compose_job(cfg, want, clauses, label=None, timeout_ms=30000):
 # ----------------------------------------------------------------------------------------------
 # contract model of scipy.optimize.minimize(method='Nelder-Mead') for the refinement step (C05, C12, C13)
 class _OptRes:
-    def __init__(self, x, fun, nfev):
-        self.x, self.fun, self.nfev, self.nit, self.success = x, fun, nfev, nfev, True
+    def __init__(self, x, fun, nfev, success=True):
+        self.x, self.fun, self.nfev, self.nit, self.success = x, fun, nfev, nfev, success
+        self.status = 0 if success else 2
+        self.message = 'stub'
 
 
 class MinimizeStub:
     """scipy.optimize.minimize as Process.DoLocalRefinement uses it: evaluates `fun` at x0 and at `npoints` further ARBITRARY
     points -- inside `bounds` if and only if bounds are passed, otherwise anywhere in [-BIG, BIG]^N -- and returns the
-    evaluated point with the smallest value (x0 if none is better), with nfev = number of evaluations.  Real scipy is used
+    evaluated point with the smallest value (x0 if none is better), with nfev = number of evaluations and an ARBITRARY `success` flag.  Real scipy is used
     in the native replays."""
     BIG = 1000
 
-    def __init__(self, ex, npoints=2):
+    def __init__(self, ex, npoints=2, sym_success=False):
         self.ex = ex
         self.npoints = npoints
+        self.sym_success = sym_success
         self.calls = []
         self.optimize = self
 
@@ -543,11 +555,13 @@ class MinimizeStub:
             nfev += 1
             if val < best_v:
                 best_v, best_x = val, shims.SArr(pt, 'f')
-        return _OptRes(best_x, best_v, nfev)
+        # Nelder-Mead may or may not report convergence within maxiter: an arbitrary Boolean
+        ok = bool(ex.bool('nm_success_%d' % len(self.calls))) if self.sym_success else True
+        return _OptRes(best_x, best_v, nfev, ok)
 
 
-def use_minimize_stub(ex, npoints=2):
+def use_minimize_stub(ex, npoints=2, sym_success=False):
     st = setup()
-    stub = MinimizeStub(ex, npoints)
+    stub = MinimizeStub(ex, npoints, sym_success)
     st['mods'].process.scipy = stub
     return stub
